@@ -147,7 +147,13 @@ pub fn program(rng: &mut Rng, nops: usize, max: usize, multi_packet: bool) -> Ou
                             let data = rng.bytes(len);
                             regions.push((data.clone(), None));
                             let r = regions.len() - 1;
-                            m.shm.push((r as u32, IpcSharedMemory::from_bytes(&data)));
+                            let mem = IpcSharedMemory::from_bytes(&data);
+                            // sometimes the same region twice, side by side (a handle and its clone: equal contents, two attachments)
+                            if rng.below(3) == 0 {
+                                m.shm.push((r as u32, mem.clone()));
+                                hs.push(format!("m{}", r));
+                            }
+                            m.shm.push((r as u32, mem));
                             hs.push(format!("m{}", r));
                         },
                     }
@@ -177,13 +183,16 @@ pub fn program(rng: &mut Rng, nops: usize, max: usize, multi_packet: bool) -> Ou
                     continue;
                 }
                 ops.push(format!("recv {}", c));
-                let mode = rng.below(3);
+                let mode = rng.below(4);
                 let r: Result<Msg, TryRecvError> = {
                     let rx = &chans[c].receiver.as_ref().unwrap().0;
                     if mode == 0 && chans[c].queued > 0 {
                         rx.recv().map_err(TryRecvError::IpcError)
                     } else if mode == 1 {
                         rx.try_recv_timeout(Duration::from_millis(if chans[c].queued > 0 { 200 } else { 1 }))
+                    } else if mode == 3 {
+                        // a zero time-out is a poll: same answers as try_recv (everything is completely queued here)
+                        rx.try_recv_timeout(Duration::ZERO)
                     } else {
                         rx.try_recv()
                     }
